@@ -1,4 +1,4 @@
-import Placement.Lemmas.AllocFrame
+import Placement.Lemmas.AllocReshape
 /-
   Helper lemmas for C01, part 4: the step function, request by request.
 -/
@@ -18,9 +18,6 @@ def Op.AmountsNonneg (op : Op R) : Prop := ∀ x ∈ op.placed, 0 ≤ x.2.2
 
 instance (op : Op R) : Decidable op.AmountsNonneg := by unfold Op.AmountsNonneg; infer_instance
 
-def Op.isReshape : Op R → Bool
-  | .reshape .. => true
-  | _ => false
 
 /-- the requests that can change the inventory rows of provider `rp` (internal id) in a way that
 adds or alters a row: `PUT inventories`, `POST inventories`, `PUT inventories/{rc}`, `POST /reshaper`
@@ -47,11 +44,105 @@ theorem InvWrite.allocs {db db' : DB R} {u : Nat} (h : InvWrite db db' u) : db'.
   · exact h.2
   · exact hf.1
 
-/-- every request except `POST /reshaper`: a pair over-committed afterwards did not gain usage -/
-theorem step_usage_le (cfg : Config) (db : DB R) (op : Op R) (hr : op.isReshape = false)
-    (hu : InvKeysNodup db) (hpos : AllocNonneg db) (hnn : op.AmountsNonneg) {rp rc : Nat}
+
+/-! ### `POST /reshaper` -/
+
+theorem hReshape_safe {cfg : Config} {db : DB R} {mv : Nat} {invs : List (RpInvReq R)}
+    {cs : List ConsumerReq} (hu : InvKeysNodup db) (hrc : RcIdsNodup db) (hid : RpIdsNodup db)
+    (hwf : ReshapeWF invs) (hnn : ∀ c ∈ cs, ∀ x ∈ c.allocs, 0 ≤ x.2.2)
+    (hok : (hReshape cfg db mv invs cs).2.ok = true) :
+    ∀ c ∈ cs, ∀ x ∈ c.allocs, 0 < x.2.2 → PlacedSafe db (hReshape cfg db mv invs cs).1 x := by
+  intro c hc x hx hpos
+  rcases hReshape_facts (cfg := cfg) (mv := mv) (cs := cs) hu hrc hid hwf with
+    ⟨_, hbad⟩ | ⟨d2, d3, targets, triples, objs, h2, h3, facts, _, ht, p1, p2⟩
+  · rw [hbad] at hok; cases hok
+  · have hc' : ∃ t ∈ triples, t.1 = c := by rw [← ht] at hc; simpa using hc
+    obtain ⟨t, htm, rfl⟩ := hc'
+    obtain ⟨rp, hrp, a, ha, e1, e2, e3⟩ := p1 t htm x hx
+    have hnn' : ∀ a ∈ objs, 0 ≤ a.used := by
+      intro a ha
+      rcases p2 a ha with h0 | ⟨t', ht', y, hy, e⟩
+      · omega
+      · rw [e]; exact hnn t'.1 (by rw [← ht]; exact List.mem_map_of_mem ht') y hy
+    obtain ⟨rc, hrcid, ⟨i, hi, hi1, hi2⟩, hall⟩ := facts.placed hnn' a ha (by omega)
+    have hfit := hall i hi hi1 hi2
+    rw [e1] at hi1 hall hfit
+    rw [e3] at hfit
+    rw [e2] at hrcid
+    refine PlacedSafe.congr h3 ⟨rp, rc, i, hrp, ?_, hi, hi1, hi2, hfit.1, hfit.2.1, hfit.2.2.1,
+      hfit.2.2.2, ?_⟩
+    · simpa only [DB.rcId, h2.2.2.2] using hrcid
+    · apply not_overCommitted_of_fits
+      intro j hj j1 j2
+      exact (hall j hj j1 j2).2.2.2
+
+/-- usage of a pair that is over-committed after a reshape did not grow -/
+theorem hReshape_usage {cfg : Config} {db : DB R} {mv : Nat} {invs : List (RpInvReq R)}
+    {cs : List ConsumerReq} (hu : InvKeysNodup db) (hrc : RcIdsNodup db) (hid : RpIdsNodup db)
+    (hwf : ReshapeWF invs) (hpos : AllocNonneg db) (hnn : ∀ c ∈ cs, ∀ x ∈ c.allocs, 0 ≤ x.2.2)
+    {rp rc : Nat} (ho : OverCommitted (hReshape cfg db mv invs cs).1 rp rc) :
+    (hReshape cfg db mv invs cs).1.usage rp rc ≤ db.usage rp rc := by
+  rcases hReshape_facts (cfg := cfg) (mv := mv) (cs := cs) hu hrc hid hwf with
+    ⟨hf, _⟩ | ⟨d2, d3, targets, triples, objs, h2, h3, facts, _, ht, p1, p2⟩
+  · exact Int.le_of_eq (usage_congr hf.2 _ _)
+  · have hnn' : ∀ a ∈ objs, 0 ≤ a.used := by
+      intro a ha
+      rcases p2 a ha with h0 | ⟨t', ht', y, hy, e⟩
+      · omega
+      · rw [e]; exact hnn t'.1 (by rw [← ht]; exact List.mem_map_of_mem ht') y hy
+    have hpos2 : AllocNonneg d2 := by simp only [AllocNonneg, h2.2.2.1]; exact hpos
+    have ho3 : OverCommitted d3 rp rc := h3.noIA.oc ho
+    rw [usage_congr h3.2.2.1, ← usage_congr h2.2.2.1]
+    rcases facts.dich hpos2 hnn' rp rc with hle | ⟨_, hall⟩
+    · exact hle
+    · exact absurd ho3 (not_overCommitted_of_fits hall)
+
+theorem hReshape_oc_back [MonoCapOps R] {cfg : Config} {db : DB R} {mv : Nat}
+    {invs : List (RpInvReq R)} {cs : List ConsumerReq} (hu : InvKeysNodup db) (hrc : RcIdsNodup db)
+    (hid : RpIdsNodup db) (hwf : ReshapeWF invs) (hpos : AllocNonneg db)
+    (hnn : ∀ c ∈ cs, ∀ x ∈ c.allocs, 0 ≤ x.2.2) {rp rc : Nat}
+    (ho : OverCommitted (hReshape cfg db mv invs cs).1 rp rc)
+    (hn : ¬ ∃ q ∈ invs, ∃ r, db.rpByUuid q.uuid = some r ∧ r.id = rp) :
+    OverCommitted db rp rc := by
+  have hle := hReshape_usage (cfg := cfg) (mv := mv) hu hrc hid hwf hpos hnn ho
+  rcases hReshape_facts (cfg := cfg) (mv := mv) (cs := cs) hu hrc hid hwf with
+    ⟨hf, _⟩ | ⟨d2, d3, targets, triples, objs, h2, h3, facts, htg, _, _, _⟩
+  · exact hf.oc ho
+  · obtain ⟨i, hi, h1, h2', h3'⟩ := ho
+    rw [h3.2.1] at hi
+    have hnt : i.rp ∉ targets := fun hm => hn (h1 ▸ htg _ hm)
+    have hi2 : i ∈ db.invs := by rw [← h2.2.1]; exact (facts.others i hnt).mp hi
+    exact ⟨i, hi2, h1, h2', MonoCapOps.capLt_mono _ _ _ _ hle h3'⟩
+
+/-! ### the step function -/
+
+/-- request well-formedness (JSON-schema facts): amounts are not negative (`"minimum": 1`), and
+the `inventories` object of a reshape has one entry per provider uuid -/
+def Op.WF : Op R → Prop
+  | .reshape _ invs cs => ReshapeWF invs ∧ (Op.reshape 0 invs cs).AmountsNonneg
+  | op => op.AmountsNonneg
+
+theorem Op.WF.nonneg {op : Op R} (h : op.WF) : op.AmountsNonneg := by
+  cases op <;> first | exact h | exact h.2
+
+/-- the parts of the uniqueness constraints (`Uniq`) and of `AllocPos` that C01 uses -/
+structure StateOK (db : DB R) : Prop where
+  invKeys : InvKeysNodup db
+  rcIds : RcIdsNodup db
+  rpIds : RpIdsNodup db
+  allocNonneg : AllocNonneg db
+
+theorem StateOK.of_uniq {db : DB R} (hu : Uniq db) (hp : AllocPos db) : StateOK db :=
+  ⟨hu.inv, hu.rcId, hu.rpId, hp.nonneg⟩
+
+/-- a pair over-committed after a request did not gain usage -/
+theorem step_usage_le (cfg : Config) (db : DB R) (op : Op R) (hs : StateOK db) (hwf : op.WF)
+    {rp rc : Nat}
     (ho : OverCommitted (step cfg db op).1 rp rc) :
     (step cfg db op).1.usage rp rc ≤ db.usage rp rc := by
+  have hu := hs.invKeys
+  have hpos := hs.allocNonneg
+  have hnn := hwf.nonneg
   cases op with
   | rpCreate mv u n p => exact Int.le_of_eq (usage_congr (hRpCreate_noIA db mv u n p).2 _ _)
   | rpUpdate mv u n p => exact Int.le_of_eq (usage_congr (hRpUpdate_noIA db mv u n p).2 _ _)
@@ -76,12 +167,17 @@ theorem step_usage_le (cfg : Config) (db : DB R) (op : Op R) (hr : op.isReshape 
     intro c hc x hx
     exact hnn x (List.mem_flatMap.mpr ⟨c, hc, hx⟩)
   | allocDelete c => exact (hAllocDelete_wf db c hpos rp rc).usage ho
-  | reshape mv invs cs => cases hr
+  | reshape mv invs cs =>
+    exact hReshape_usage hu hs.rcIds hs.rpIds hwf.1 hpos
+      (fun c hc x hx => hnn x (List.mem_flatMap.mpr ⟨c, hc, hx⟩)) ho
 
-theorem step_oc_back [MonoCapOps R] (cfg : Config) (db : DB R) (op : Op R) (hr : op.isReshape = false)
-    (hu : InvKeysNodup db) (hpos : AllocNonneg db) (hnn : op.AmountsNonneg) {rp rc : Nat}
+theorem step_oc_back [MonoCapOps R] (cfg : Config) (db : DB R) (op : Op R) (hs : StateOK db)
+    (hwf : op.WF) {rp rc : Nat}
     (ho : OverCommitted (step cfg db op).1 rp rc) (hn : ¬ op.changesInventoryOf db rp) :
     OverCommitted db rp rc := by
+  have hu := hs.invKeys
+  have hpos := hs.allocNonneg
+  have hnn := hwf.nonneg
   cases op with
   | rpCreate mv u n p => exact (hRpCreate_noIA db mv u n p).oc ho
   | rpUpdate mv u n p => exact (hRpUpdate_noIA db mv u n p).oc ho
@@ -110,5 +206,26 @@ theorem step_oc_back [MonoCapOps R] (cfg : Config) (db : DB R) (op : Op R) (hr :
   | allocDelete c =>
     have w := hAllocDelete_wf db c hpos rp rc
     exact oc_mono w.invs (w.usage ho) ho
-  | reshape mv invs cs => cases hr
+  | reshape mv invs cs =>
+    exact hReshape_oc_back hu hs.rcIds hs.rpIds hwf.1 hpos
+      (fun c hc x hx => hnn x (List.mem_flatMap.mpr ⟨c, hc, hx⟩)) ho hn
+/-- C01, first sentence, for the step function -/
+theorem step_placed_safe (cfg : Config) (db : DB R) (op : Op R) (hs : StateOK db) (hwf : op.WF)
+    (hok : (step cfg db op).2.ok = true) :
+    ∀ x ∈ op.placed, 0 < x.2.2 → PlacedSafe db (step cfg db op).1 x := by
+  have hnn := hwf.nonneg
+  cases op with
+  | allocPut mv c => exact hAllocPut_safe hs.invKeys hnn hok
+  | allocPost mv cs =>
+    intro x hx hp
+    obtain ⟨c, hc, hxc⟩ := List.mem_flatMap.mp hx
+    exact hAllocPost_safe hs.invKeys (fun c hc x hx => hnn x (List.mem_flatMap.mpr ⟨c, hc, hx⟩))
+      hok c hc x hxc hp
+  | reshape mv invs cs =>
+    intro x hx hp
+    obtain ⟨c, hc, hxc⟩ := List.mem_flatMap.mp hx
+    exact hReshape_safe hs.invKeys hs.rcIds hs.rpIds hwf.1
+      (fun c hc x hx => hnn x (List.mem_flatMap.mpr ⟨c, hc, hx⟩)) hok c hc x hxc hp
+  | _ => intro x hx; cases hx
+
 end Placement
